@@ -21,7 +21,7 @@ RULE = ('One case = a random sequence of 30-60 clock operations (start, stop, sp
         'an assignment while running and a rejected assignment.')
 ASSUMPTIONS = ['real-time values, speeds and assigned values are dyadic rationals, so the clock\'s float arithmetic is exact in mode (i)',
                'mode (ii): the value is only determined up to the real time spent inside an operation']
-REQUIRED_COUNTERS = ['readings_exact_non_float', 'chained_interpreter_steps', 'followed_clock_replaced', 'readings_exact', 'readings_bounded', 'rejected_assignments', 'accepted_assignments_running',
+REQUIRED_COUNTERS = ['synchronized_reads_during_a_step', 'readings_exact_non_float', 'chained_interpreter_steps', 'followed_clock_replaced', 'readings_exact', 'readings_bounded', 'rejected_assignments', 'accepted_assignments_running',
                      'speed_changes_running', 'stopped_stillness_checks', 'synchronized_checks']
 
 
@@ -277,6 +277,10 @@ def sync_case(acc, rnd):
     it = Interpreter(sc)
     syn = SynchronizedClock(it)
     last_step_time = it.time
+    # what the synchronized clock shows while the followed interpreter is delivering meta-events (that is when a bound property
+    # statechart reads it): the time of the step under way, from 'step started' on
+    during = []
+    it.attach(lambda m: during.append((m.name, syn.time, m.data.get('time'))))
     # a chain: it2's own clock is synchronised with `it`, and a third clock follows it2
     it2 = Interpreter(sc, clock=SynchronizedClock(it))
     syn2 = SynchronizedClock(it2)
@@ -296,8 +300,16 @@ def sync_case(acc, rnd):
             it.queue('go')
         else:
             t0 = it.clock.time
+            del during[:]
             step = it.execute_once()
             last_step_time = t0
+            acc.count('synchronized_reads_during_a_step', len(during))
+            bad = [d for d in during if d[1] != t0 or (d[0] == 'step started' and d[2] != t0)]
+            if bad:
+                acc.violation('C14:synchronized-clock', "while '%s' of the step at %r was being delivered, a SynchronizedClock on that "
+                              'interpreter showed %r%s' % (bad[0][0], t0, bad[0][1],
+                                                           '' if bad[0][0] != 'step started' else " (the meta-event says %r)" % (bad[0][2],)), {})
+                return
             if step is not None and step.time != t0:
                 acc.violation('C14:synchronized-clock', 'step time %r, clock %r' % (step.time, t0), {})
                 return
